@@ -114,6 +114,15 @@ const MALFORMED_ATTRS: &[&str] = &[
     "#[darling(skip,)]", "#[darling()]", "#[darling(=)]", "#[darling(a = )]", "#[darling(::skip)]", "#[darling(skip = true = false)]", "#[darling(5)]",
 ];
 
+/// every syntactic form of a field type the type walks of code generation have to cross
+const FIELD_TYPES: &[&str] = &[
+    "Buffer<16>", "Option<Vec<Buffer<{ 4 * 4 }>>>", "Buffer<N>", "[u8; 16]", "[T; N]", "[T]", "&'a T", "&'static mut Vec<T>", "*const T", "*mut u8",
+    "(T, u8)", "()", "(T,)", "fn(T) -> U", "for<'x> fn(&'x T) -> &'x U", "unsafe extern \"C\" fn(u8, ...)", "Box<dyn Fn(T) -> U + Send + 'a>",
+    "dyn Iterator<Item = T>", "impl Iterator<Item = T>", "<T as Iterator>::Item", "<Vec<T>>::Output", "::std::vec::Vec<T>", "T::Assoc", "!", "_",
+    "m!(T)", "(T)", "std::collections::HashMap<String, Vec<T>>", "Foo<'a, T, 3, { N + 1 }, Item = U>", "Foo<T: Clone>", "Option<fn() -> T>", "[[T; 2]; 3]",
+    "Self", "crate::x::Y<T>", "Cow<'a, str>", "PhantomData<T>", "Wrapper<-1>", "Wrapper<true>", "Wrapper<'x'>", "Wrapper<\"s\">",
+];
+
 fn attr_lines(r: &mut Rng, opts: &[String]) -> String {
     if opts.is_empty() {
         return String::new();
@@ -173,6 +182,17 @@ pub fn run_c10(seed: u64, n: usize, out: &mut Out) {
                 }
             }
         }
+    }
+    // every ordered pair of variant options on one variant, next to a `word` variant / a container from_word
+    for a in VARIANT_OPTS {
+        for b in VARIANT_OPTS {
+            for split in 0..2 {
+                let attrs = if split == 0 { format!("#[darling({}, {})]", a, b) } else { format!("#[darling({})] #[darling({})]", a, b) };
+                emit(out, &format!("enum E {{ {} A, #[darling(word)] B, C }}", attrs), &mut id);
+                emit(out, &format!("#[darling(from_word = fns::fw)] enum E {{ {} A, B }}", attrs), &mut id);
+            }
+        }
+        emit(out, &format!("enum E {{ #[darling({})] A, B }}", a), &mut id);
     }
     // two fields both flatten; word rules; from_word rules; attrs without forward_attrs; bodies
     for src in [
@@ -270,7 +290,7 @@ pub fn run_c06(seed: u64, n: usize, out: &mut Out) {
             } else {
                 String::new()
             };
-            let ty = *r.pick(&["u8", "String", "Vec<u8>", "Option<String>", "T", "Inner"]);
+            let ty = if r.chance(3, 4) { *r.pick(&["u8", "String", "Vec<u8>", "Option<String>", "T", "Inner"]) } else { *r.pick(FIELD_TYPES) };
             let doc = if r.chance(1, 10) { "#[doc = \"x\"] " } else { "" };
             format!("{}{}{}{}{}{}", doc, maybe_malformed(r), attr_lines(r, &opts), if named { &name } else { "" }, if named { ": " } else { "" }, ty)
         };
@@ -290,8 +310,10 @@ pub fn run_c06(seed: u64, n: usize, out: &mut Out) {
                 let vs: Vec<String> = (0..nv)
                     .map(|k| {
                         let vopts = pick_opts(&mut r, VARIANT_OPTS, VARIANT_BAD, 2);
-                        let body = match r.below(4) {
+                        let body = match r.below(6) {
                             0 => String::new(),
+                            4 => "()".to_string(),
+                            5 => " {}".to_string(),
                             1 => format!("({})", field(&mut r, 0, false)),
                             2 => format!("({}, {})", field(&mut r, 0, false), field(&mut r, 1, false)),
                             _ => format!(" {{ {} }}", (0..r.range(1, 2)).map(|j| field(&mut r, j, true)).collect::<Vec<_>>().join(", ")),
